@@ -1,6 +1,8 @@
 import ObiVerif.Model.Iter
 import ObiVerif.Model.IterWorker
 import ObiVerif.Model.IterMore
+import ObiVerif.Model.ReseqTrace
+import ObiVerif.Model.LoopMachines
 import ObiVerif.Driver.Util
 /-! line protocol for C03: `<combinator> [params] | <stream> | <stream> …`, a stream being the
 arrival-ordered list of `order:id,id,…` -/
@@ -113,6 +115,11 @@ def pipeStage (tok : String) (arr : List Batch) : Option (List Batch) :=
   | ["filterempty"] => some (filterEmpty arr)
   | ["worker"] => some (workerStage workF arr)
   | ["limitmem"] => some (passThrough arr)
+  | ["tee"] => some (copyTee arr).1
+  | ["complete"] => some (completeFile (sortBatches arr))
+  | ["divt", n] => do
+    let n ← n.toNat?
+    if n = 0 then none else some (divideOn predP n arr).1
   | ["rebatch", n] => do
     let n ← n.toNat?
     if n = 0 then none else some (rebatch n arr)
@@ -135,6 +142,86 @@ def pipeStage (tok : String) (arr : List Batch) : Option (List Batch) :=
 def runPipe (stages : List String) (arr : List Batch) : Option (List Batch) :=
   stages.foldlM (fun a tok => pipeStage tok a) arr
 
+/-- what a stage does to the flat record list (its specification: `rebatch_spec`, `filterOn_spec`,
+`worker_spec`, `iWorker_spec`, `divideOn_spec`, `load_spec`, `passThrough_spec`) — used by the `big` cases,
+whose streams are too long for the quadratic list models -/
+def flatStage (tok : String) (flat : List Rec) : Option (List Rec) :=
+  match tok.splitOn ":" with
+  | ["sort"] | ["filterempty"] | ["limitmem"] | ["tee"] | ["complete"] => some flat
+  | ["worker"] => some (flat.flatMap workF)
+  | ["rebatch", n] => do
+    let n ← n.toNat?
+    if n = 0 then none else some flat
+  | ["filteron", n] | ["divt", n] => do
+    let n ← n.toNat?
+    if n = 0 then none else some (flat.filter predP)
+  | ["iworker", k, m] => do
+    let sp ← parseWSpec s!"{k},{m},0"
+    some (flat.flatMap fun s => (specWorker sp s).getD [])
+  | _ => none
+
+def hashRecs (l : List Rec) : Nat := l.foldl (fun h r => (h * 31 + r) % 1000000007) 7
+
+/-- `big w=N c=MODE n=NREC bs=B stages` (stages ending with `rebatch:S`): by `rebatch_spec` the output is the
+flat result cut in batches of `S` numbered 0,1,2,… -/
+def runBig (nrec : Nat) (stages : List String) : Option String := do
+  let flat ← stages.foldlM (fun a tok => flatStage tok a) ((List.range nrec).map (· + 1))
+  let last ← stages.getLast?
+  match last.splitOn ":" with
+  | ["rebatch", s] =>
+    let s ← s.toNat?
+    if s = 0 then none else
+    let nb := (flat.length + s - 1) / s
+    let lastLen := if flat.length = 0 then 0 else flat.length - (nb - 1) * s
+    some s!"n={flat.length} nb={nb} last={lastLen} h={hashRecs flat}"
+  | _ => none
+
+/-- the pushes of the loop machines of `Model/LoopMachines.lean` (what the small-step theorems of
+`Props/C03S.lean` say is delivered) recomputed next to the functional models: any difference is reported -/
+def divideMachine (n : Nat) (s : List Batch) : List Batch × List Batch :=
+  let tr := ObiVerif.LoopSteps.foldTrace (ObiVerif.LoopSteps.divideF predP n) ⟨[], [], 0, 0, [], []⟩ (sortBatches s)
+  (ObiVerif.LoopSteps.proj 0 tr, ObiVerif.LoopSteps.proj 1 tr)
+
+def distributeMachine (n k : Nat) (s : List Batch) : List Batch :=
+  ObiVerif.LoopSteps.proj k
+    (ObiVerif.LoopSteps.foldTrace (ObiVerif.LoopSteps.distributeF clsK n 4) [] (sortBatches s))
+
+def parseEv (s : String) : Option ObiVerif.ReseqSteps.Ev :=
+  if s = "q" then some .q else if s = "x" then some .x else
+  match (s.drop 1).toString.toNat? with
+  | some k =>
+    if s.startsWith "b" then some (.b k) else if s.startsWith "e" then some (.e k)
+    else if s.startsWith "d" then some (.d k) else none
+  | none => none
+
+/-- `trace w=N c=MODE ev=… | stream`: the log of the instrumented run must be an execution of the
+transition system of `Model/ReseqSteps.lean`, and the delivery is then `sortBatches` of the stream -/
+def runTrace (nw : Nat) (evs : String) (s : List Batch) : String :=
+  match (evs.splitOn ",").mapM parseEv with
+  | none => "bad-op"
+  | some l =>
+    match ObiVerif.ReseqSteps.check s.length nw l with
+    | .ok () => s!"valid {showStream (sortBatches s)}"
+    | .error i => s!"invalid@{i}"
+
+def showSlice : SliceRes → String
+  | .ok out => s!"ok {",".intercalate (out.map toString)}"
+  | .error => "err"
+  | .panic => "panic"
+
+/-- `adaptnil VARIANT boe=B K,M,E | 0:ids` -/
+def runAdaptNil (variant : String) (boe : Bool) (sp : WSpec) (l : List Rec) : Option String :=
+  let w := specWorker sp
+  match variant with
+  | "w" => some (showSlice (seqToSliceOpt growMin none boe l))
+  | "c" => some (showSlice (seqToSliceCondOpt growMin none (some w) boe l))
+  | "cw" => some (showSlice (seqToSliceCondOpt growMin (some predP) none boe l))
+  | "cwn" => some (showSlice (seqToSliceCondOpt growMin none none boe l))
+  | "chainl" => (chainWorkersOpt growMin none (some w)).map fun wk => showSlice (seqToSlice growMin wk boe l)
+  | "chainr" => (chainWorkersOpt growMin (some w) none).map fun wk => showSlice (seqToSlice growMin wk boe l)
+  | "chainnn" => some (if (chainWorkersOpt growMin none none).isNone then "nil" else "worker")
+  | _ => none
+
 def run (line : String) : String :=
   match line.splitOn " | " with
   | head :: streams =>
@@ -150,6 +237,7 @@ def run (line : String) : String :=
         match n.toNat? with
         | some n => if n = 0 then "bad-op" else
             let (t, f) := divideOn predP n s
+            if divideMachine n s != (t, f) then "machine-differs" else
             s!"T {showStream t} F {showStream f}"
         | none => "bad-op"
     | some [s], ["filteron", n, _] =>
@@ -163,6 +251,7 @@ def run (line : String) : String :=
     | some [s], ["distribute", n] =>
         match n.toNat? with
         | some n => if n = 0 then "bad-op" else
+            if (List.range 4).any (fun k => distributeMachine n k s != distributeKey clsK n k s) then "machine-differs" else
             joinSp ((List.range 4).filterMap fun k =>
               let st := distributeKey clsK n k s
               if st.isEmpty then none else some s!"K{k} {showStream st}")
@@ -209,6 +298,39 @@ def run (line : String) : String :=
         match runPipe (stages.splitOn ",") s with
         | some out => showStream (sortByOrder out)
         | none => "bad-op"
+    | some [s], ["pipec", _, _, stages] =>
+        match runPipe (stages.splitOn ",") s with
+        | some out => showStream (sortByOrder out)
+        | none => "bad-op"
+    | some _, ["big", _, _, n, _, stages] =>
+        match flagArg "n=" n with
+        | some n => (runBig n (stages.splitOn ",")).getD "bad-op"
+        | none => "bad-op"
+    | some [s], ["divideabs", n] =>
+        match n.toNat? with
+        | some n => if n = 0 then "bad-op" else
+            let (t, f) := divideOn predP n s
+            if f.isEmpty then s!"T {showStream t}" else "hang"
+        | none => "bad-op"
+    | some [s], ["divideslow", n] =>
+        match n.toNat? with
+        | some n => if n = 0 then "bad-op" else
+            let (t, f) := divideOn predP n s
+            s!"T {showStream t} F {showStream f}"
+        | none => "bad-op"
+    | some [[(_, l)]], ["adaptnil", variant, boe, spec] =>
+        match flagArg "boe=" boe, parseWSpec spec with
+        | some b, some sp => (runAdaptNil variant (b != 0) sp l).getD "bad-op"
+        | _, _ => "bad-op"
+    | some [s], ["trace", w, _, ev] =>
+        match flagArg "w=" w with
+        | some nw => if ev.startsWith "ev=" then runTrace nw (ev.drop 3).toString s else "bad-op"
+        | none => "bad-op"
+    | some [s], ["uniq"] =>
+        let fl := flatten s
+        joinSp ((List.range 3).filterMap fun c =>
+          let k := (fl.filter fun r => r % 3 == c).length
+          if k = 0 then none else some s!"c{c}={k}")
     | some ss, ["pool"] =>
         let out := pool ss.flatten
         s!"orders={",".intercalate ((sortNat (out.map (·.1))).map toString)} recs={",".intercalate ((sortNat (flatten out)).map toString)}"
